@@ -365,3 +365,64 @@ Example C03_F14_replay :
   replay3 f14_prog 14 f14_t3 14 f14_t4 100 = RpStopped 7 /\
   replay3 f14_prog 14 f14_t0 14 f14_t4 100 = RpStopped 28.
 Proof. vm_compute. repeat split; reflexivity. Qed.
+
+(** ------------------------------------------------------------------ *)
+(** F16 (Proofs/F16Witness.v): a second recorded application that is NOT a
+    run of the real machine, of another kind: the rule is applied once, to a
+    tape that is not the machine's.  Program [f16_prog] (22 states, 4
+    colours; text [f16_text]), cycle limit 1000.  At cycle 66, in state 5 = F,
+    on the tape 1 / 2:1 / 1:4 the rule "R0 -2" is applied once, giving
+    1 / 2:1 / 1:2.  From the tape before, the real machine halts after 11
+    steps (at slot (20, 2) = U2) and none of its 12 configurations is the
+    configuration after; after 2 steps it is in state 5 on 1 / 0:2, 2:1 / 1:2:
+    the two zeros it pushed on the left are missing from the claimed tape.
+    (The first application, cycle 55, 1 / - / 1:11 -> 1 / - / 1:1, 5 times,
+    is real.) *)
+From BB Require Import F16Witness.
+
+Theorem C03_application_refuted_F16 :
+  exists comp lim r apps a,
+    run_prover_trace comp lim = Ok (r, apps) /\ In a apps /\
+    app_cycle a = 66 /\
+    app_state a = 5 /\
+    app_before a = mkTape 1 [(2, 1)] [(1, 4)] /\
+    app_rule a = [((true, 0), Plus (-2)%Z)] /\
+    app_times a = 1 /\
+    app_after a = mkTape 1 [(2, 1)] [(1, 2)] /\
+    apply_rule (app_before a) (app_rule a) = Ok (Some (app_times a), app_after a) /\
+    ~ (exists n z, tm_steps (to_prog comp) n (app_state a, unroll_tape (app_before a)) = Some (app_state a, z) /\
+                   tape_eq z (unroll_tape (app_after a))).
+Proof. exact application_refuted_F16. Qed.
+Print Assumptions C03_application_refuted_F16.
+
+(** the same with the data spelled out *)
+Theorem C03_application_not_real_F16 : forall n z,
+  tm_steps (to_prog f16_prog) n (5, unroll_tape (mkTape 1 [(2, 1)] [(1, 4)])) = Some (5, z) ->
+  ~ tape_eq z (unroll_tape (mkTape 1 [(2, 1)] [(1, 2)])).
+Proof. exact f16_app_not_real. Qed.
+Print Assumptions C03_application_not_real_F16.
+
+(** where the machine really is: it reaches the tape with the two zeros
+    (after exactly 2 steps), never the claimed one, and halts after 11 steps;
+    the replay checker says the same *)
+Theorem C03_real_tape_has_zeros_F16 :
+  (exists k z, (1 <= k)%nat /\
+     tm_steps (to_prog f16_prog) k (5, unroll_tape (mkTape 1 [(2, 1)] [(1, 4)])) = Some (5, z) /\
+     tape_eq z (unroll_tape (mkTape 1 [(0, 2); (2, 1)] [(1, 2)]))) /\
+  tm_steps (to_prog f16_prog) 2 (5, unroll_tape (mkTape 1 [(2, 1)] [(1, 4)]))
+    = Some (5, unroll_tape (mkTape 1 [(0, 2); (2, 1)] [(1, 2)])) /\
+  (forall n z, tm_steps (to_prog f16_prog) n (5, unroll_tape (mkTape 1 [(2, 1)] [(1, 4)])) = Some (5, z) ->
+     ~ tape_eq z (unroll_tape (mkTape 1 [(2, 1)] [(1, 2)]))) /\
+  halts_at (to_prog f16_prog) (5, unroll_tape (mkTape 1 [(2, 1)] [(1, 4)])) 11 (20, 2) /\
+  replay3 f16_prog 5 (mkTape 1 [(2, 1)] [(1, 4)]) 5 (mkTape 1 [(2, 1)] [(1, 2)]) 100 = RpStopped 11 /\
+  replay3 f16_prog 5 (mkTape 1 [(2, 1)] [(1, 4)]) 5 (mkTape 1 [(0, 2); (2, 1)] [(1, 2)]) 100 = RpReached 2.
+Proof. exact real_tape_has_zeros_F16. Qed.
+Print Assumptions C03_real_tape_has_zeros_F16.
+
+(** the first recorded application of that run is real *)
+Theorem C03_first_application_real_F16 :
+  exists k z, (1 <= k)%nat /\
+    tm_steps (to_prog f16_prog) k (5, unroll_tape (mkTape 1 [] [(1, 11)])) = Some (5, z) /\
+    tape_eq z (unroll_tape (mkTape 1 [] [(1, 1)])).
+Proof. exact f16_first_app_real. Qed.
+Print Assumptions C03_first_application_real_F16.
